@@ -46,6 +46,22 @@ def seeded_table():
     return "\n".join(rows)
 
 
+def benign_table():
+    rows = ["| behaviour-preserving change | what it does (abridged) | checks quiet / run | checks that raised an alarm |", "|---|---|---|---|"]
+    for d in sorted(glob.glob(os.path.join(VERIF, "benign", "*"))):
+        mp = os.path.join(d, "meta.json")
+        if not os.path.exists(mp):
+            continue
+        m = json.load(open(mp))
+        ch = m.get("checks", {})
+        quiet = [k for k, v in ch.items() if v.get("quiet")]
+        loud = ["%s (%s)" % (k.split(":")[0], "no-failing-input-found" if any("no-failing-input-found" in l for l in v.get("lines", [])) else "VIOLATION")
+                for k, v in sorted(ch.items()) if not v.get("quiet")]
+        rows.append("| %s | %s | %d / %d | %s |" % (os.path.basename(d), str(m.get("summary") or m.get("kind") or "").replace("|", "/").replace("\n", " ")[:200],
+                                                  len(quiet), len(ch), ", ".join(loud) or "none"))
+    return "\n".join(rows)
+
+
 def fixes_list():
     import subprocess
     out = subprocess.run(["git", "-C", "/repo", "log", "--reverse", "--format=%h %s", "--grep=^fix:"], capture_output=True, text=True).stdout
@@ -59,7 +75,7 @@ def fixes_list():
 def main():
     p = os.path.join(VERIF, "DESIGN.md")
     t = open(p, encoding="utf-8").read()
-    for name, content in (("coverage", coverage_table()), ("seeded", seeded_table()), ("fixes", fixes_list())):
+    for name, content in (("coverage", coverage_table()), ("seeded", seeded_table()), ("fixes", fixes_list()), ("benign", benign_table())):
         b, e = "<!-- BEGIN:%s -->" % name, "<!-- END:%s -->" % name
         if b in t:
             t = t[:t.index(b) + len(b)] + "\n" + content + "\n" + t[t.index(e):]
